@@ -544,6 +544,41 @@ def step_lemma(S, op, bx, by, pfx):
     r, _ = S.prove('%s.lemma.%s' % (pfx, nm), goal, hy, timeout=S.cap(20, 60), kind='lemma', functions=['interval step over the integers'], bounds='all integers in the stated ranges')
     _STEP_DONE[key] = (r == 'unsat'); return _STEP_DONE[key]
 
+def _confirm_precision_loss(S, U, fn, t, name, fnlist, binfo, why):
+    """The term walk found an operation other than correctly rounded + - * / of the element type in the compiled float term (e.g. a conversion through a narrower
+    type).  That is a structural violation of 'differs only by the rounding of the individual operations'; it is reported as VIOLATION only if a native run confirms
+    it: on well-conditioned inputs the native result must then differ from the exact value of the rounding-erased term (same code, exact rationals) by far more than
+    the element type's rounding (2^-30 relative for double, 2^-12 for float)."""
+    import random
+    from fractions import Fraction
+    W = 32 if t == 'f32' else 64; f = U.fns[fn]; tol = 2.0 ** -30 if W == 64 else 2.0 ** -12
+    try: rr = sym_call(U, fn, mode='real')
+    except Exception: return False
+    rnd = random.Random(20261001); worst = None
+    for trial in range(6):
+        vals = []; sub = []
+        for (c, n), terms in zip(f.ins, rr.ins):
+            side = int(round(n ** 0.5)); row = []
+            for k, tv in enumerate(terms):
+                d = rnd.uniform(0.5, 1.5) + (4.0 if side * side == n and k % (side + 1) == 0 else 0.0)
+                b = float_to_bits(d, W); d = bits_to_float(b, W); row.append(b)
+                if z3.is_real(tv): sub.append((tv, z3.RealVal(str(Fraction(d)))))
+            vals.append(row)
+        nat = U.call_native(fn, vals)
+        for oi, ((c, n), orow) in enumerate(zip(f.outs, rr.outs)):
+            for k, o in enumerate(orow):
+                if not isinstance(o, RV): continue
+                ev = z3.simplify(z3.substitute(o.r, *sub))
+                if not z3.is_rational_value(ev): continue
+                ex_ = float(Fraction(ev.numerator_as_long(), ev.denominator_as_long())); got = bits_to_float(nat[oi][k], W)
+                rel = abs(got - ex_) / max(abs(ex_), 1e-3)
+                if worst is None or rel > worst[0]: worst = (rel, oi, k, vals, got, ex_)
+    if worst is None or worst[0] <= tol: return False
+    rel, oi, k, vals, got, ex_ = worst
+    info = {'unit': U.name, 'fn': fn, 'obligation': name + '.structure', 'inputs': [[hex(v) for v in r] for r in vals], 'output': [oi, k], 'native': got, 'exact_value_of_rounding_erased_term': ex_, 'relative_error': rel, 'allowed': tol, 'structure': why}
+    S.rec(name=name + '.structure', kind='structure', functions=fnlist, bounds=binfo, solver='term walk + native confirmation', result='sat', time_s=0.0, status='counterexample', mandatory=True, replay='reproduced', replay_info=info, note=why)
+    S.violations.append((name + '.structure', info)); return True
+
 def exact_check(S, U, fn, t, spec, detexpr, name, ins=None, unimod=True, only=None, entries=None, family=None):
     """spec(K, outs) as in the *.real jobs; detexpr(K) -> the Leibniz determinant every fdiv must divide by (None: the wrapper must not divide);
     entries {output array: [indices]} restricts the walk to those output entries (the others are dummies: select the goals over the walked entries with only)"""
@@ -567,6 +602,7 @@ def exact_check(S, U, fn, t, spec, detexpr, name, ins=None, unimod=True, only=No
     binfo = 'entries integer-valued, |x| <= %d%s; bit-precise %s term of the compiled code; ll=%s' % (walk.kmax if walk else 8, ', det = +-1' if unimod else '', TYPES[t], U.ll_sha())
     if walk is None:
         why = ('%s appears in the float term' % err) if err else 'interval bound of an intermediate reaches 2^%d even for |x| <= 1' % (24 if t == 'f32' else 53)
+        if err and _confirm_precision_loss(S, U, fn, t, name, fnlist, binfo, why): return
         S.rec(name=name + '.structure', kind='structure', result='unknown', status='inconclusive', note=why, mandatory=True, functions=fnlist, bounds=binfo)
         S.inconclusive.append('%s [exact clause not established: %s]' % (name, why)); return
     S.rec(name=name + '.structure', kind='structure', functions=fnlist, bounds=binfo, solver='term walk: RNE fadd/fsub/fmul/fdiv, negation, integer literals, inputs only (%d nodes)' % walk.nodes, result='unsat', time_s=0.0, status='discharged', mandatory=True)
